@@ -334,6 +334,8 @@ where
 
 /// Performs clean-up actions when a thread exits.
 fn end_thread(records: &mut MutexGuard<GroupRecords>, shutdown_wakeup: &Condvar) {
+    #[cfg(feature = "verif_hooks")]
+    crate::verif::failpoint(crate::verif::GROUP_END_THREAD);
     records.thread_count -= 1;
     if records.shutting_down && records.thread_count == 0 {
         shutdown_wakeup.notify_all();
@@ -448,6 +450,8 @@ impl ThreadPool {
             }
             records = self.available_wakeup.wait(records).unwrap();
         }
+        #[cfg(feature = "verif_hooks")]
+        crate::verif::failpoint(crate::verif::POOL_SUBMIT_ACCEPTED);
         records.queue.push_back(Box::new(task));
         self.task_wakeup.notify_one();
         Ok(())
@@ -464,6 +468,8 @@ impl ThreadPool {
         if records.shutting_down {
             Err(Error::ShuttingDown)
         } else if records.available_workers > records.queue.len() {
+            #[cfg(feature = "verif_hooks")]
+            crate::verif::failpoint(crate::verif::POOL_SUBMIT_OR_SPAWN_ACCEPTED);
             records.queue.push_back(Box::new(task));
             self.task_wakeup.notify_one();
             Ok(())
@@ -482,6 +488,8 @@ impl ThreadPool {
                 let pool = self.clone();
                 let linger_timeout = self.linger_timeout;
                 self.group.start_oneshot(Some(name), move || {
+                    #[cfg(feature = "verif_hooks")]
+                    crate::verif::failpoint(crate::verif::POOL_AUX_STARTED);
                     task();
                     pool_worker_loop(pool, Some(linger_timeout));
                 })
@@ -544,6 +552,8 @@ fn start_pool_workers(
 fn pool_worker_loop(pool: Arc<ThreadPool>, timeout: Option<Duration>) {
     loop {
         let deadline = timeout.map(|t| Instant::now() + t);
+        #[cfg(feature = "verif_hooks")]
+        crate::verif::failpoint(crate::verif::POOL_WORKER_LOOP_TOP);
         let mut records = pool.records.lock().unwrap();
         records.available_workers += 1;
         pool.available_wakeup.notify_one();
@@ -567,6 +577,8 @@ fn pool_worker_loop(pool: Arc<ThreadPool>, timeout: Option<Duration>) {
                     .wait_timeout(records, time_to_deadline)
                     .unwrap();
                 if wait_result.timed_out() {
+                    #[cfg(feature = "verif_hooks")]
+                    crate::verif::failpoint(crate::verif::POOL_WORKER_TIMED_OUT);
                     records.available_workers -= 1;
                     return;
                 } else {
